@@ -659,7 +659,7 @@ func init() {
 	registerMerge("C16", func(ctx *core.Ctx, tier string) {
 		ctx.Rep.Rule = "(1) scanx: BFS over the synchronous product of the real scanner and a reference pushdown recogniser, all 256 bytes from every reachable state, stacks to depth 4: end-of-input acceptance must agree in every state (language equality for every length); " +
 			"(2) bytex(a): every string over 33 byte-class representatives up to length L whose proper prefixes are viable (plus each with one killing byte): Valid/Compact/Indent/Unmarshal/UnmarshalWithKeys accept iff RFC 8259 does; every accepted string, also with leading/trailing whitespace, goes to every public entry point (must be accepted when of the right shape; value-preserving); " +
-			"(3) bytex(b): every string over 16 symbols up to length 4 (thorough 5) in every []byte parameter of the v5 entry points: ill-formed => error (Equal: false); (4) nesting 9999/10000/10001; (5) string literals of every length 0..130 and around 256/1024/4096 bytes, plain and with one control byte / quote / escape / bad UTF-8 at the start, middle, end - codec functions and entry points; (7) 760 number literals (sign, four integer parts, five fractions, 19 exponent spellings incl. leading zeros) at the root, in an array and as member values; (6) one caller buffer per size 16..70000 handed to each entry point holding a well-formed text, then overwritten in place with an ill-formed one of the same length, then the well-formed one again. states = scanner product states + distinct well-formed strings"
+			"(3) bytex(b): every string over 16 symbols up to length 4 (thorough 5) in every []byte parameter of the v5 entry points: ill-formed => error (Equal: false); (4) nesting 9999/10000/10001; (5) string literals of every length 0..130 and around 256/1024/4096 bytes, plain and with one control byte / quote / escape / bad UTF-8 at the start, middle, end - codec functions and entry points; (8) runs of 1..64 blanks inserted at every byte position of a dozen short texts, runs of 1..33 digits after every number prefix and after \\u escapes; (7) 760 number literals (sign, four integer parts, five fractions, 19 exponent spellings incl. leading zeros) at the root, in an array and as member values; (6) one caller buffer per size 16..70000 handed to each entry point holding a well-formed text, then overwritten in place with an ill-formed one of the same length, then the well-formed one again. states = scanner product states + distinct well-formed strings"
 		ctx.Phase("scanx", func() { runScanx(ctx, 4) })
 		n, ne, nb := 5, 4, 4
 		if tier == "thorough" {
@@ -669,6 +669,7 @@ func init() {
 		ctx.Phase("bytex_b", func() { runBytexB(ctx, "C16", nb, byteFlags{reject: true, accept: true, applyOK: true}) })
 		ctx.Phase("string_shapes", func() { runStringShapes(ctx, "C16", byteFlags{reject: true, accept: true, applyOK: true}) })
 		ctx.Phase("number_shapes", func() { runNumberShapes(ctx, "C16", byteFlags{reject: true, accept: true, applyOK: true}) })
+		ctx.Phase("run_shapes", func() { runRunShapes(ctx, "C16", byteFlags{reject: true, accept: true, applyOK: true}) })
 		ctx.Phase("buffer_reuse", func() { runBufferReuse(ctx, "C16") })
 		ctx.Phase("deep", func() { runDeep(ctx, "C16", tier, true, true) })
 	}, false)
